@@ -60,4 +60,12 @@ META.update({
         technique="property-based testing (rapid) + exhaustive enumeration of the short-list layer: differential testing of three carriers against an independent classification oracle; native fuzzing in thorough",
     ),
 })
+META.update({
+    "C07": dict(
+        text="Randomised-trial property testing of the Timeout race: thousands of generated executions (limit 1..20 ms; function duration far below, in a dense band around, far above the limit, or blocking until cancelled; sleeping or spinning; eight placements relative to retry, fallback, hedge, bulkhead and rate limiter; sync and async) run concurrently, and each is judged by an oracle that is true whichever side of the race wins: either the inner result unchanged with the listener never called and the execution not cancelled, or ErrExceeded with exactly one listener call and the execution cancelled; never before the limit; blocking functions always time out; the limit applies afresh per attempt under a retry. Sampling of schedules, not proof.",
+        design_ref="DESIGN.md section 6, C07",
+        note="Schedules come from real timers and the Go scheduler; only lower-bound timing assertions; absence of a listener call is checked after a grace period, presence is polled for 30 s; a call that has not returned 35 s after a <= 20 ms limit counts as undelivered cancellation.",
+        technique="property-based testing (rapid-generated randomised concurrent trials) with a race-agnostic consistency oracle over (result, listener count, cancellation, elapsed time)",
+    ),
+})
 NOT_APPLICABLE = [dict(property_id=p, reason="check not built yet in this session (work in progress; DESIGN.md section 6 describes the planned property-based check)") for p in ALL if p not in META]
